@@ -341,6 +341,35 @@ func (e *lenEval) stmts(list []ast.Stmt, into *linForm) (returned bool) {
 			if len(st.Results) == 1 && c.isIdentOf(st.Results[0], e.acc) {
 				return true
 			}
+			// `return l + term + ...`: the same as `l += term; ...; return l`
+			if len(st.Results) == 1 && e.acc != nil {
+				var terms []ast.Expr
+				var flat func(x ast.Expr)
+				flat = func(x ast.Expr) {
+					x = ast.Unparen(x)
+					if be, ok := x.(*ast.BinaryExpr); ok && be.Op == token.ADD {
+						flat(be.X)
+						flat(be.Y)
+						return
+					}
+					terms = append(terms, x)
+				}
+				flat(st.Results[0])
+				nAcc := 0
+				for _, t := range terms {
+					if c.isIdentOf(t, e.acc) {
+						nAcc++
+					}
+				}
+				if nAcc == 1 {
+					for _, t := range terms {
+						if !c.isIdentOf(t, e.acc) {
+							into.add(e.eval(t), 1)
+						}
+					}
+					return true
+				}
+			}
 			e.prob(st.Pos(), "returns %s, not the accumulator", stmtString(c, st))
 			return true
 		default:
